@@ -774,6 +774,212 @@ Proof.
 Qed.
 
 (* ------------------------------------------------------------------ *)
+(* construction: acceptance; entry points: acceptance; FRACTIONAL refusals *)
+(* 3-D label-map style input: accepted exactly when every value is 0 or a described number *)
+Lemma ctor3_accepts_iff segs d px :
+  (forall v, In v px -> 0 <= v) ->
+  ((exists out, ctor_labelmap3 segs d px = Ok out) <-> forall v, In v px -> v = 0 \/ In v segs) /\
+  (forall out, ctor_labelmap3 segs d px = Ok out -> out = map (cast d) px) /\
+  (forall k, ctor_labelmap3 segs d px = Err k -> k = "ValueError"%string).
+Proof.
+  intros Hnn. unfold ctor_labelmap3.
+  set (n := zlen segs).
+  destruct (forallb (fun s => memz s segs) (zrange 1 (n + 1)) && forallb (fun s => memz s (zrange 1 (n + 1))) segs) eqn:Ec.
+  - apply andb_true_iff in Ec. destruct Ec as [E1 E2]. rewrite forallb_forall in E1, E2.
+    assert (Hset : forall v, In v segs <-> 1 <= v <= n).
+    { intros v. split.
+      - intros Hv. specialize (E2 v Hv). apply memz_In in E2. unfold zrange in E2. apply in_zrange_from in E2. lia.
+      - intros Hv. apply memz_In, E1. unfold zrange. apply in_zrange_from. unfold n, zlen in *. lia. }
+    destruct (n <? list_max px) eqn:Em.
+    + split; [|split; [discriminate|intros k H; inversion H; reflexivity]].
+      split; [intros [out H]; discriminate|]. intros Hall. exfalso.
+      destruct px as [|x px']; [cbn [list_max] in Em; unfold n, zlen in Em; lia|].
+      assert (Hin : In (list_max (x :: px')) (x :: px')) by (apply list_max_In; [congruence|exact Hnn]).
+      destruct (Hall _ Hin) as [H0|Hs]; [unfold n, zlen in *; lia|]. apply Hset in Hs. lia.
+    + split; [|split; [intros out H; inversion H; reflexivity|discriminate]].
+      split; [|eauto]. intros _ v Hv. pose proof (list_max_ge px v Hv). pose proof (Hnn v Hv).
+      destruct (Z.eq_dec v 0); [left; assumption|right; apply Hset; lia].
+  - destruct (existsb (fun v => negb (memz v (0 :: segs))) px) eqn:Ee.
+    + split; [|split; [discriminate|intros k H; inversion H; reflexivity]].
+      split; [intros [out H]; discriminate|]. intros Hall. exfalso.
+      apply existsb_exists in Ee. destruct Ee as [v [Hv Hm]].
+      assert (memz v (0 :: segs) = true); [|rewrite H in Hm; discriminate].
+      apply memz_In. destruct (Hall v Hv) as [->|Hs]; [left; reflexivity|right; exact Hs].
+    + split; [|split; [intros out H; inversion H; reflexivity|discriminate]].
+      split; [|eauto]. intros _ v Hv.
+      destruct (memz v (0 :: segs)) eqn:Em.
+      * apply memz_In in Em. destruct Em as [<-|Hs]; auto.
+      * exfalso. assert (existsb (fun v => negb (memz v (0 :: segs))) px = true); [|congruence].
+        apply existsb_exists. exists v. rewrite Em. auto.
+Qed.
+
+(* ------------------------------------------------------------------ *)
+(* 4-D input: accepted exactly when it has one channel per described segment, is binary and free of overlaps *)
+Definition px_ok (segs : list Z) (p : list Z) : Prop :=
+  zlen p = zlen segs /\ (forall v, In v p -> v = 0 \/ v = 1) /\ zsum p <= 1.
+
+Lemma list_max_le l m : 0 <= m -> (forall v, In v l -> v <= m) -> list_max l <= m.
+Proof.
+  intros Hm. induction l as [|x l IH]; intros H; cbn [list_max]; [lia|].
+  assert (x <= m) by (apply H; left; reflexivity).
+  assert (list_max l <= m) by (apply IH; intros v Hv; apply H; right; exact Hv). lia.
+Qed.
+
+Lemma zsum_zero p : (forall v, In v p -> v = 0) -> zsum p = 0.
+Proof.
+  induction p as [|a p IH]; intros H; cbn [zsum]; [reflexivity|].
+  rewrite (H a (or_introl eq_refl)), IH; [reflexivity|]. intros v Hv. apply H. right. exact Hv.
+Qed.
+
+Lemma ctor4_checks segs px :
+  (forall p v, In p px -> In v p -> 0 <= v) ->
+  let mx := list_max (map list_max px) in
+  let overlap := if mx =? 0 then false else if zlen segs =? 1 then false else existsb (fun p => 1 <? zsum p) px in
+  (forallb (fun p => zlen p =? zlen segs) px = true /\ (1 <? mx) = false /\ overlap = false) <->
+  (forall p, In p px -> px_ok segs p).
+Proof.
+  intros Hnn mx overlap. split.
+  - intros [Hshape [Hmx Hov]] p Hp. rewrite forallb_forall in Hshape. specialize (Hshape p Hp).
+    assert (Hle : forall v, In v p -> v <= mx).
+    { intros v Hv. pose proof (list_max_ge p v Hv).
+      assert (list_max p <= mx) by (apply list_max_ge, in_map, Hp). lia. }
+    assert (Hb : forall v, In v p -> v = 0 \/ v = 1).
+    { intros v Hv. pose proof (Hnn p v Hp Hv). specialize (Hle v Hv). lia. }
+    split; [lia|]. split; [exact Hb|].
+    unfold overlap in Hov. destruct (mx =? 0) eqn:E0.
+    + rewrite zsum_zero; [lia|]. intros v Hv. pose proof (Hnn p v Hp Hv). specialize (Hle v Hv). lia.
+    + destruct (zlen segs =? 1) eqn:E1.
+      * destruct p as [|x [|y p]]; unfold zlen in Hshape, E1; cbn [length] in Hshape; try lia.
+        cbn [zsum]. destruct (Hb x (or_introl eq_refl)); lia.
+      * destruct (1 <? zsum p) eqn:Es; [|lia]. exfalso.
+        assert (existsb (fun p => 1 <? zsum p) px = true); [|congruence].
+        apply existsb_exists. exists p. auto.
+  - intros Hall. split; [|split].
+    + apply forallb_forall. intros p Hp. destruct (Hall p Hp) as [Hl _]. lia.
+    + assert (mx <= 1); [|lia]. apply list_max_le; [lia|]. intros m Hm. apply in_map_iff in Hm.
+      destruct Hm as [p [<- Hp]]. destruct (Hall p Hp) as [_ [Hb _]].
+      apply list_max_le; [lia|]. intros v Hv. destruct (Hb v Hv); lia.
+    + unfold overlap. destruct (mx =? 0); [reflexivity|]. destruct (zlen segs =? 1); [reflexivity|].
+      destruct (existsb _ px) eqn:E; [|reflexivity]. exfalso.
+      apply existsb_exists in E. destruct E as [p [Hp Hs]]. destruct (Hall p Hp) as [_ [_ Hz]]. lia.
+Qed.
+
+Lemma ctor4_accepts_iff segs d px :
+  wf_dtype d -> zlen segs <= dtype_max d -> 1 <= dtype_max d -> segs <> [] ->
+  (forall p v, In p px -> In v p -> 0 <= v) ->
+  ((exists out, ctor_labelmap4 segs d px = Ok out) <-> forall p, In p px -> px_ok segs p) /\
+  (forall k, ctor_labelmap4 segs d px = Err k -> k = "ValueError"%string).
+Proof.
+  intros Hd Hlen H1 Hne Hnn. pose proof (ctor4_checks segs px Hnn) as Hck. cbv zeta in Hck.
+  unfold ctor_labelmap4.
+  destruct (forallb _ px) eqn:Hshape; cbn [negb].
+  2:{ split; [|intros k H; inversion H; reflexivity]. split; [intros [o H]; discriminate|].
+      intros Hall. apply Hck in Hall. destruct Hall as [Hs _]. congruence. }
+  destruct (1 <? list_max (map list_max px)) eqn:Hmx.
+  { split; [|intros k H; inversion H; reflexivity]. split; [intros [o H]; discriminate|].
+    intros Hall. apply Hck in Hall. destruct Hall as [_ [Hs _]]. congruence. }
+  match goal with |- context [if ?ov then Err _ else _] => destruct ov eqn:Hov end.
+  { split; [|intros k H; inversion H; reflexivity]. split; [intros [o H]; discriminate|].
+    intros Hall. apply Hck in Hall. destruct Hall as [_ [_ Hs]]. congruence. }
+  assert (Hall : forall p, In p px -> px_ok segs p) by (apply Hck; auto).
+  assert (Hcomb : map (combine_px d (zlen segs)) px = map (fun p => if list_max p =? 0 then 0 else index_of 1 p + 1) px).
+  { apply map_ext_in. intros p Hp. destruct (Hall p Hp) as [Hl [Hb _]]. rewrite <- Hl.
+    apply combine_px_spec; auto; try lia. intro E; subst p. unfold zlen in Hl. cbn [length] in Hl.
+    destruct segs; [congruence|cbn [length] in Hl; lia]. }
+  rewrite Hcomb.
+  destruct (zlist_eqb segs _); [split; [split; eauto|discriminate]|].
+  unfold lookup_all. rewrite lookup_all_n_ok; [split; [split; eauto|discriminate]|].
+  intros v Hv. apply in_map_iff in Hv. destruct Hv as [p [<- Hp]].
+  unfold zlen. rewrite map_length. cbn [length].
+  destruct (Hall p Hp) as [Hl [Hb _]].
+  destruct (list_max p =? 0) eqn:E0; [lia|].
+  destruct (list_max_binary p Hb) as [E|[E Hin]]; [lia|].
+  pose proof (index_of_bound 1 p Hin). unfold zlen in *. lia.
+Qed.
+
+(* ------------------------------------------------------------------ *)
+(* which reads are accepted: entry-point argument checks + uniqueness guard + missing-frame policy *)
+Definition entry_args_ok (e : entry) (keys : list Z) : bool :=
+  match e with
+  | EInstance | EDimIdx => negb (zlen keys =? 0)
+  | EFrame => negb (zlen keys =? 0) && forallb (fun k => 0 <? k) keys
+  | EVolume | ETpm => true
+  end.
+
+Lemma read_accepts_iff e am st keys req o r :
+  read e am st keys req o = Ok r <->
+  (req <> [] /\ entry_args_ok e keys = true /\
+   unique_frames (segtype_eqb (s_ty st) LABELMAP) (s_frames st) = true /\
+   policy e am st keys = None /\ seg_frame st keys req o = Ok r).
+Proof.
+  unfold read, entry_args_ok.
+  assert (Hreq : (zlen req =? 0) = true <-> req = []).
+  { unfold zlen. destruct req; cbn [length]; split; intros H; try reflexivity; try discriminate; lia. }
+  destruct (zlen req =? 0) eqn:E0.
+  { split; [discriminate|]. intros [Hne _]. exfalso. apply Hne, Hreq. reflexivity. }
+  assert (Hne : req <> []) by (intro E; apply Hreq in E; discriminate).
+  destruct e; cbn [policy];
+    destruct (zlen keys =? 0); destruct (forallb (fun k => 0 <? k) keys);
+    destruct (unique_frames (segtype_eqb (s_ty st) LABELMAP) (s_frames st)); destruct am;
+    cbn [negb andb];
+    repeat match goal with |- context [if ?c then None else Some _] => destruct c end;
+    (split; [intros H; try discriminate; repeat split; auto
+            |intros [_ [H1 [H2 [H3 H4]]]]; try discriminate; auto]).
+Qed.
+
+(* FRACTIONAL, stacked: refused exactly when an argument check fails *)
+Lemma fractional_stacked_refusals st keys req o :
+  s_ty st = FRACTIONAL -> 1 <= s_maxfrac st <= 255 -> wf_values st (s_maxfrac st) -> wf_opts o ->
+  o_combine o = false ->
+  ((exists r, seg_frame st keys req o = Ok r) <-> args_ok st req o = true) /\
+  (forall k, seg_frame st keys req o = Err k -> k = "ValueError"%string).
+Proof.
+  intros Hty Hmf Hw Ho Hc. destruct (args_ok st req o) eqn:Ea.
+  2:{ rewrite (args_refused st keys req o Ea). split; [split; [intros [r H]; discriminate|discriminate]|].
+      intros k H; inversion H; reflexivity. }
+  unfold args_ok, out_dtype in Ea. unfold seg_frame. rewrite Hc, Hty in *. cbn [segtype_eqb andb negb] in *.
+  rewrite !andb_true_r in *.
+  set (d := match o_dtype o with Some d => d | None => _ end) in *.
+  assert (Hd : wf_dtype d).
+  { unfold d. destruct (o_dtype o) eqn:E; [apply Ho; exact E|]. destruct (o_rescale o); [exact I|apply unsigned_dtype_wf]. }
+  destruct (forallb _ req); cbn [andb negb] in Ea |- *; [|discriminate].
+  destruct (kind_ok d); cbn [andb negb] in Ea |- *; [|discriminate].
+  destruct (dtype_max d <? _) eqn:Hcap; cbn [negb andb] in Ea; [discriminate|].
+  destruct (o_rescale o) eqn:Hr; cbn [andb negb] in *.
+  - destruct (is_float d); cbn [negb] in Ea |- *; [|discriminate].
+    rewrite existsb3_false; [split; [split; eauto|discriminate]|].
+    intros x y v Hx Hy Hv. apply in_map_iff in Hx. destruct Hx as [key [<- _]].
+    apply in_map_iff in Hy. destruct Hy as [s [<- _]].
+    rewrite (stack_col_exact st (DU 8) (s_maxfrac st)) in Hv; auto; [|cbn; lia|lia|cbn [dtype_max]; change (2 ^ 8) with 256; lia].
+    pose proof (mask_bound st (s_maxfrac st) key s v ltac:(lia) Hw Hv). lia.
+  - split; [split; eauto|discriminate].
+Qed.
+
+(* binary-valued FRACTIONAL, combined: as for BINARY objects *)
+Lemma fractional_combined_refusals st keys req o :
+  wf_fractional_binary st -> wf_opts o -> o_combine o = true ->
+  (seg_frame st keys req o = Err "ValueError" <-> args_ok st req o = false) /\
+  (forall k, seg_frame st keys req o = Err k -> k = "ValueError"%string \/
+             (k = "RuntimeError"%string /\ o_skip o = false)) /\
+  (args_ok st req o = true -> o_skip o = true -> exists r, seg_frame st keys req o = Ok r).
+Proof.
+  intros Hst Ho Hc. destruct (args_ok st req o) eqn:Ea.
+  2:{ rewrite (args_refused st keys req o Ea). split; [tauto|]. split; [intros k H; inversion H; auto|discriminate]. }
+  assert (Hty : s_ty st = FRACTIONAL) by (destruct Hst; assumption).
+  assert (Hr : o_rescale o = true).
+  { unfold args_ok in Ea. rewrite Hc, Hty in Ea. cbn [segtype_eqb andb negb] in Ea.
+    destruct (o_rescale o); [reflexivity|]. cbn [negb andb] in Ea. rewrite !andb_false_r in Ea. discriminate. }
+  rewrite (fractional_combine_as_binary st keys req o Hst Hc Hr).
+  assert (Hab : args_ok (binarize st) req o = true).
+  { unfold args_ok, out_dtype, max_output_val in *. rewrite Hc, Hr, Hty in Ea. rewrite Hc, Hr.
+    cbn [binarize s_ty s_segs segtype_eqb andb negb] in *. rewrite !andb_true_r in *. exact Ea. }
+  destruct (binary_refusals (binarize st) keys req o (binarize_wf st Hst) Ho) as [B1 [B2 B3]].
+  split; [rewrite B1, Hab; tauto|]. split.
+  - intros k H. destruct (B2 k H) as [->|[-> [_ Hs]]]; auto.
+  - intros _ Hs. apply B3; auto.
+Qed.
+
+(* ------------------------------------------------------------------ *)
 (* non-vacuity instances                                                *)
 Definition ex_frac : stored :=
   mkStored FRACTIONAL [1; 2] 8 100 4 0
